@@ -1,6 +1,7 @@
 package checks
 
 import (
+	"bytes"
 	"crypto/sha256"
 	"fmt"
 	"math/rand"
@@ -19,7 +20,9 @@ import (
 // alternatives put rule references after every kind of nullable prefix, behind predicates, in
 // later alternatives of choices whose earlier alternatives are nullable, next to consuming
 // look-alikes. Used by C07 (detection) and C19 (map-order independence of the analyses).
-func genRefGraph(r *rand.Rand, withBlocks bool) *gast.Grammar { return genRefGraphTR(r, withBlocks, false) }
+func genRefGraph(r *rand.Rand, withBlocks bool) *gast.Grammar {
+	return genRefGraphTR(r, withBlocks, false)
+}
 
 // genRefGraphTR optionally adds throw / recover to the mix.
 func genRefGraphTR(r *rand.Rand, withBlocks, throwRecover bool) *gast.Grammar {
@@ -340,6 +343,65 @@ func C19(c *Ctx) {
 			c.Report(&Violation{Class: "C19/inprocess-vs-run", Summary: fmt.Sprintf("the output built inside the hook process differs from the output of a normal run; flags %v grammar %s", j.flags, trunc(j.name)), Grammar: string(j.text), Flags: j.flags})
 		}
 	})
+	// different grammars built one after the other inside one process: what was built first must
+	// not influence what is built next (caches keyed by less than what the output depends on)
+	seqTexts := map[string]string{
+		"plain":  "{\npackage p\n}\nS <- A B* !.\nA <- [a-c]+ { return nil, nil }\nB <- \",\" A\n",
+		"state":  "{\npackage p\n}\nS <- #{ c.state[\"n\"] = 0; return nil } A* !.\nA <- [a-c] #{ return nil } / \"(\" S \")\"\n",
+		"lr":     "{\npackage p\n}\nS <- E !.\nE <- E \"+\" T / T\nT <- T \"*\" [0-9]+ / [0-9]+\n",
+		"uclass": "{\npackage p\n}\nS <- [\\p{Lu}\\p{Greek}]+ [^\\p{Nd}] / [a-z]i\n",
+	}
+	type seq struct {
+		flags []string
+		names []string
+	}
+	seqs := []seq{
+		{[]string{"-optimize-parser"}, []string{"plain", "state", "uclass", "plain"}},
+		{[]string{"-optimize-parser"}, []string{"state", "plain"}},
+		{[]string{"-support-left-recursion"}, []string{"plain", "lr", "state", "plain"}},
+		{[]string{"-support-left-recursion"}, []string{"lr", "plain"}},
+		{[]string{"-support-left-recursion", "-optimize-parser"}, []string{"state", "lr", "plain", "uclass"}},
+		{[]string{"-optimize-grammar", "-optimize-basic-latin"}, []string{"uclass", "plain", "state"}},
+		{nil, []string{"plain", "state", "uclass"}},
+	}
+	for _, sq := range seqs {
+		var texts [][]byte
+		var want []string
+		ok := true
+		for _, n := range sq.names {
+			t := []byte(seqTexts[n])
+			one := c.W.RunPigeon(c.W.Pigeon, t, 60*time.Second, nil, sq.flags...)
+			if one.Exit != 0 {
+				c.Broken(fmt.Sprintf("sequence text %s is rejected with flags %v: %s", n, sq.flags, firstLine(one.Stderr)))
+				ok = false
+				break
+			}
+			texts = append(texts, t)
+			want = append(want, fmt.Sprintf("%x", sha256.Sum256(one.Stdout)))
+		}
+		if !ok {
+			continue
+		}
+		var fl []string
+		for _, f := range sq.flags {
+			fl = append(fl, strings.TrimPrefix(f, "-"))
+		}
+		res := c.W.RunPigeon(hook, bytes.Join(texts, []byte("\n%%NEXT%%\n")), 120*time.Second, []string{"PIGEON_VERIF_MODE=multibuild", "PIGEON_VERIF_K=2", "PIGEON_VERIF_FLAGS=" + strings.Join(fl, ",")})
+		lines := strings.Fields(string(res.Stdout))
+		c.Eval(len(lines))
+		c.CovAdd("builds_in_mixed_sequences", len(lines))
+		if res.Exit != 0 || len(lines) != 2*len(texts) {
+			c.Report(&Violation{Class: "C19/sequence-fails", Summary: fmt.Sprintf("building the grammars %v one after the other inside one process fails (exit %d: %s) although each builds alone; flags %v", sq.names, res.Exit, firstLine(string(res.Stdout)+res.Stderr), sq.flags), Flags: sq.flags})
+			continue
+		}
+		for i, l := range lines {
+			if l != want[i%len(want)] {
+				c.Report(&Violation{Class: "C19/sequence-differs", Summary: fmt.Sprintf("grammar %q built as number %d of the sequence %v inside one process differs from the same grammar built alone; flags %v", sq.names[i%len(want)], i+1, sq.names, sq.flags),
+					Grammar: seqTexts[sq.names[i%len(want)]], Flags: sq.flags})
+				break
+			}
+		}
+	}
 	c.Cov("grammar_flag_pairs", len(jobs))
 	c.Cov("runs_per_pair", R)
 	c.Cov("inprocess_builds_per_pair", K)
